@@ -35,6 +35,7 @@ type Launch struct {
 	Fds   map[string]string `json:"fds"` // inherited descriptors: number -> link target
 	Own   map[string]string `json:"own"` // opened by the probe's own runtime before main (close-on-exec set)
 	Exe   string            `json:"exe"`
+	Cwd   string            `json:"cwd"`      // working directory the process was started in
 	Stub  string            `json:"stub"`     // idx-name the real stub picked up ("" if stub.New failed)
 	Error string            `json:"stub_err"` // error of stub.New
 }
@@ -236,7 +237,8 @@ func Main() {
 	p := &plugin{file: file, reports: reports, beh: Behaviour(file)}
 
 	exe, _ := os.Executable()
-	rep := Launch{Pid: os.Getpid(), Argv: os.Args, Env: os.Environ(), Fds: fds, Own: own, Exe: exe}
+	cwd, _ := os.Getwd()
+	rep := Launch{Pid: os.Getpid(), Argv: os.Args, Env: os.Environ(), Fds: fds, Own: own, Exe: exe, Cwd: cwd}
 	if rep.Env == nil {
 		rep.Env = []string{}
 	}
